@@ -394,11 +394,38 @@ func caseSignature(fd *eng.FuncDecl, selfNames map[string]bool) map[string][]str
 	if main == nil {
 		return out
 	}
+	// helperBody resolves a call to an unexported function or method declared in the
+	// same package (a block one sibling may have extracted): its body is spliced in.
+	helperBody := func(x *ast.CallExpr) *ast.BlockStmt {
+		var id *ast.Ident
+		switch f := x.Fun.(type) {
+		case *ast.Ident:
+			id = f
+		case *ast.SelectorExpr:
+			id = f.Sel
+		}
+		if id == nil || ast.IsExported(id.Name) || selfNames[id.Name] {
+			return nil
+		}
+		fobj, ok := info.Uses[id].(*types.Func)
+		if !ok || fobj.Pkg() != fd.Pkg.Types {
+			return nil
+		}
+		for _, f := range fd.Pkg.Syntax {
+			for _, d := range f.Decls {
+				if d2, ok := d.(*ast.FuncDecl); ok && d2.Body != nil && info.Defs[d2.Name] == types.Object(fobj) {
+					return d2.Body
+				}
+			}
+		}
+		return nil
+	}
 	for _, st := range main.Body.List {
 		cc := st.(*ast.CaseClause)
 		var sig []string
-		for _, bs := range cc.Body {
-			ast.Inspect(bs, func(n ast.Node) bool {
+		var visit func(n ast.Node, depth int)
+		visit = func(root ast.Node, depth int) {
+			ast.Inspect(root, func(n ast.Node) bool {
 				switch x := n.(type) {
 				case *ast.CallExpr:
 					name := types.ExprString(x.Fun)
@@ -407,6 +434,14 @@ func caseSignature(fd *eng.FuncDecl, selfNames map[string]bool) map[string][]str
 					}
 					if selfNames[name] {
 						name = "<self>"
+					}
+					if body := helperBody(x); body != nil && depth < 2 && len(body.List) <= 6 {
+						// a small local helper: what it does counts, not its name
+						visit(body, depth+1)
+						for _, a := range x.Args {
+							visit(a, depth)
+						}
+						return false
 					}
 					sig = append(sig, "call:"+name)
 				case *ast.AssignStmt:
@@ -423,10 +458,15 @@ func caseSignature(fd *eng.FuncDecl, selfNames map[string]bool) map[string][]str
 				case *ast.BasicLit:
 					sig = append(sig, "lit:"+x.Value)
 				case *ast.ReturnStmt:
-					sig = append(sig, "return")
+					if depth == 0 {
+						sig = append(sig, "return")
+					}
 				}
 				return true
 			})
+		}
+		for _, bs := range cc.Body {
+			visit(bs, 0)
 		}
 		labels := []string{}
 		for _, e := range cc.List {
@@ -483,10 +523,18 @@ func ruleSiblingTraversals(c *eng.Ctx) {
 		switch {
 		case !okA || !okB:
 			c.Viol(R, key, b.Decl.Pos(), "element case exists in only one of the two traversals: content handled in mode None is handled differently (or not at all) in the filtering modes")
-		case strings.Join(strip(x), " ") != strings.Join(strip(y), " "):
+		case multiset(strip(x)) != multiset(strip(y)):
 			c.Viol(R, key, b.Decl.Pos(), "the two traversals handle this element differently (calls/updates differ): unexcluded content is no longer identical across modes")
 		default:
 			c.Ok(R, key, b.Decl.Pos(), fmt.Sprintf("%d steps agree", len(strip(x))))
 		}
 	}
+}
+
+// multiset renders a step list independent of statement order (reordering
+// independent statements in one sibling is not a difference in handling).
+func multiset(sig []string) string {
+	c := append([]string(nil), sig...)
+	sort.Strings(c)
+	return strings.Join(c, " ")
 }
